@@ -398,7 +398,7 @@ class PilotManager(rpu.ClientComponent):
 
         with self._pcb_lock:
 
-            for cb_dict in self._callbacks[rpc.PILOT_STATE].values():
+            for cb_dict in list(self._callbacks[rpc.PILOT_STATE].values()):
 
                 cb      = cb_dict['cb']
                 cb_data = cb_dict['cb_data']
